@@ -20,7 +20,7 @@ RULE = ("history = (0..2 successful transfers from {expedited upload, segmented 
         "member}) + one refusal + each of the 8 successful transfers as follow-up; refusal kinds: read "
         "write-only, write read-only/const (var, record member, array member; expedited and segmented), missing index, "
         "missing sub-index (record, array), every numeric type x payload length 0..9 != width (expedited and segmented), "
-        "entry without value, wrong toggle on upload segment 1/2 and download segment 1/2, ccs 7, block download; "
+        "entry without value, wrong toggle on upload / download segment 1, 2, 3, 127..129, 255..257, ccs 7, block download; "
         "client part: same refusals through RemoteNode.sdo, abort code decoding for table codes, single bits, 0, "
         "0xFFFFFFFF, table code +-1. states = (history, step); non-trivial = histories with >= 1 predecessor transfer")
 ASSUMPTIONS = [
